@@ -32,8 +32,8 @@ ASSUMPTIONS = [
 
 KINDS = ("latex", "unicode", "html")
 ALLK = ("latex", "unicode", "html", "plain")
-QUICK = ["small_q", "decades_q", "uncert_q", "roman"]
-THOROUGH = ["small_t", "decades_t", "uncert_t", "roman"]
+QUICK = ["small_q", "decades_q", "uncert_q", "conv_q", "roman"]
+THOROUGH = ["small_t", "decades_t", "uncert_t", "conv_q", "roman"]
 
 
 # ---------------------------------------------------------------- calling chempy
@@ -53,7 +53,19 @@ def _unit(name):
         "J/K/mol": u.joule / u.kelvin / u.mol,
         "1/s": 1 / u.s,
         "M": u.molar,
+        # units of the conversion table of spec/Numbers.tla (ConvTable)
+        "km": u.km, "m": u.m, "cm": u.cm, "mm": u.mm,
+        "m3/mol/s": u.m ** 3 / u.mol / u.s,
+        "mol/m3": u.mol / u.m ** 3,
+        "kJ/mol": u.kilojoule / u.mol, "J/mol": u.joule / u.mol,
+        "g": u.gram, "kg": u.kg, "ms": u.ms, "s": u.s,
     }[name]
+
+
+# (from, to) pairs of Numbers!ConvTable the seeded generator draws from; the factor is the spec's
+CONVS = [("km", "m"), ("m", "km"), ("m", "cm"), ("cm", "m"), ("mm", "m"), ("m3/mol/s", "1/M/s"),
+         ("1/M/s", "m3/mol/s"), ("M", "mol/m3"), ("mol/m3", "M"), ("kJ/mol", "J/mol"), ("g", "kg"),
+         ("kg", "g"), ("ms", "s")]
 
 
 def _unit_text(kind, unit):
@@ -64,7 +76,9 @@ def _unit_text(kind, unit):
 
 
 def call(spec):
-    """spec: {"fn": kind | "plain" | "uncert_plain" | "roman", "x", "n" | ("xe", "p"), "unit"}
+    """spec: {"fn": kind | "plain" | "uncert_plain" | "roman", "x", "n" | ("xe", "p", "src"), "unit",
+    "from"}: x (and xe) are given in unit "from" (default: "unit") and printed in "unit"; src "attr":
+    the uncertainty is carried by the number itself (UncertainQuantity) instead of being passed.
     -> (trace, printed text) ; the trace ends with the lexed observation."""
     fn = spec["fn"]
     if fn == "roman":
@@ -74,6 +88,9 @@ def call(spec):
     x = spec["x"]
     uname = spec.get("unit") or ""
     unit = _unit(uname) if uname else None
+    fname = spec.get("from") or ""
+    given = _unit(fname) if fname else unit      # the unit the input is expressed in
+    src = spec.get("src", "arg")
     ev = [{"k": "value", "x": nc.dec_of(x)}]
     lexkind = fn
     if fn in ("plain", "rxn-unicode"):
@@ -98,17 +115,23 @@ def call(spec):
     else:
         f = _fn(fn)
         utext = _unit_text(fn, unit) if unit is not None else ""
+        kw = {"unit": unit} if fname else {}
         if "xe" in spec:
-            if unit is not None:
-                txt = f(x * unit, spec["xe"] * unit, fmt=spec["p"])
+            if given is not None and src == "attr":
+                import quantities as pq
+                txt = f(pq.UncertainQuantity(x, given, spec["xe"]), fmt=spec["p"], **kw)
+            elif given is not None:
+                txt = f(x * given, spec["xe"] * given, fmt=spec["p"], **kw)
             else:
                 txt = f(x, spec["xe"], fmt=spec["p"])
         else:
-            txt = f(x * unit if unit is not None else x, fmt=spec["n"])
+            txt = f(x * given if given is not None else x, fmt=spec["n"], **kw)
     if utext:
         ev.append({"k": "unit", "u": utext})
+    if fname:
+        ev.append({"k": "convert", "from": fname, "to": uname})
     if "xe" in spec:
-        ev += [{"k": "uncert", "xe": nc.dec_of(spec["xe"]), "p": spec["p"]}, {"k": "formatu"}]
+        ev += [{"k": "uncert", "xe": nc.dec_of(spec["xe"]), "p": spec["p"], "src": src}, {"k": "formatu"}]
     else:
         ev += [{"k": "prec", "n": spec["n"]}, {"k": "format"}]
     obs = nc.lex_number(txt, lexkind)
@@ -184,12 +207,15 @@ def seeded_specs(rng, n):
             continue
         u = rng.random()
         unit = rng.choice(UNITS) if rng.random() < 0.3 else ""
+        frm = ""
+        if rng.random() < 0.2 and abs(x) < 1e290 and abs(x) > 1e-290:
+            frm, unit = rng.choice(CONVS)       # given in one unit, shown in another
         if u < 0.5:
-            out.append({"fn": rng.choice(KINDS), "x": x, "n": rng.randint(1, 10), "unit": unit})
+            out.append({"fn": rng.choice(KINDS), "x": x, "n": rng.randint(1, 10), "unit": unit, "from": frm})
         elif u < 0.57:
-            out.append({"fn": "plain", "x": x, "n": 3, "unit": unit})
+            out.append({"fn": "plain", "x": x, "n": 3, "unit": "" if frm else unit})
         elif u < 0.6:
-            out.append({"fn": "rxn-unicode", "x": x, "n": 5, "unit": unit})
+            out.append({"fn": "rxn-unicode", "x": x, "n": 5, "unit": "" if frm else unit})
         else:
             xe = _rand_uncert(rng, x)
             if xe is None:
@@ -198,7 +224,8 @@ def seeded_specs(rng, n):
             if rng.random() < 0.3:
                 out.append({"fn": "uncert_plain", "x": x, "xe": xe, "p": p, "unit": ""})
             else:
-                out.append({"fn": rng.choice(KINDS), "x": x, "xe": xe, "p": p, "unit": unit})
+                out.append({"fn": rng.choice(KINDS), "x": x, "xe": xe, "p": p, "unit": unit, "from": frm,
+                            "src": "attr" if (unit and rng.random() < 0.5) else "arg"})
     return out
 
 
@@ -209,10 +236,19 @@ def case_specs(case, idx):
     if i["mode"] == "roman":
         return [{"fn": "roman", "n": i["n"]}]
     x = nc.float_of(i["x"])
+    cv = i.get("conv") or {"from": "", "to": ""}
     if i["mode"] == "number":
+        if cv["from"]:
+            return [{"fn": k, "x": x, "n": i["n"], "unit": cv["to"], "from": cv["from"]} for k in KINDS]
         kinds = list(KINDS) + (["plain"] if i["n"] == 3 else [])
         return [{"fn": k, "x": x, "n": i["n"], "unit": ""} for k in kinds]
     xe = nc.float_of(i["xe"])
+    src = i.get("usrc") or "arg"
+    if cv["from"]:
+        return [{"fn": k, "x": x, "xe": xe, "p": i["p"], "unit": cv["to"], "from": cv["from"], "src": src} for k in KINDS]
+    if src == "attr":
+        # an UncertainQuantity needs a unit: shown in its own unit
+        return [{"fn": k, "x": x, "xe": xe, "p": i["p"], "unit": "m/s", "src": src} for k in KINDS]
     return [{"fn": k, "x": x, "xe": xe, "p": i["p"], "unit": ""} for k in list(KINDS) + ["uncert_plain"]]
 
 
@@ -279,6 +315,7 @@ NEED = {
     "decades": ["num-sci", "-carry", "-one"],
     "uncert": ["unc-plain", "unc-exp", "-carry", "-ucarry", "-int"],
     "roman": ["roman"],
+    "conv": ["-conv", "-attr", "-arg", "num-", "unc-"],
 }
 
 
@@ -287,7 +324,7 @@ def run(ctx):
     import core
     # every action of the machine is taken (tiny configuration, -coverage on)
     ctx.tlc("Numbers_MC", "Numbers_MC_cover.cfg", require_cases=50, timeout=600, require_actions=[
-        "GenValue", "GenUnit", "GenPrecision", "Format", "GenUncert", "FormatUncert",
+        "GenValue", "GenUnit", "GenConvert", "GenPrecision", "Format", "GenUncert", "FormatUncert",
         "GenRoman", "RomanStep", "RomanFinish"])
     slices = QUICK if ctx.quick else THOROUGH
     all_specs, all_outs = [], []
@@ -298,7 +335,7 @@ def run(ctx):
         for need in NEED[sl.split("_")[0]]:
             if not any(need in c for c in classes):
                 raise core.MachineryFailure("vacuity: no case of class *%s* in slice %s" % (need, sl))
-        sel = cases if (sl == "roman" or not ctx.quick) else ctx.pick(cases, 1200)
+        sel = cases if (sl == "roman" or not ctx.quick) else ctx.pick(cases, 900)
         # every selected case: all presentations are called and compared with the roundings TLC lists
         # (number cases); which of the calls are additionally judged by the trace specification:
         # everything in small selections, one presentation per case (rotating) in large ones, and
@@ -341,7 +378,7 @@ def run(ctx):
 
     # ---- code -> spec beyond the bounds: seeded 15-digit floats, precisions 1..10, uncertainties,
     # quantities in compound units
-    n = 2500 if ctx.quick else 40000
+    n = 2000 if ctx.quick else 40000
     specs = seeded_specs(ctx.rng, n)
     outs = ctx.pmap(_call_safe, specs)
     for sp, o in list(zip(specs, outs))[:2]:
